@@ -246,6 +246,10 @@ def run(F, R):
                 edits.append((".".join(ch_), lib.loc(bco, bi_)))
         R.check("C08-R4", "context-presented-as-loaded", not edits, "build() hands the loaded context to the state machine unmodified",
                 "build() modifies the loaded context before the state machine exists (the rebuilt machine does not present the last commit): %s" % edits)
+    # the third context key (the server-dictated poll interval) is paired the same way: rule shared with C07-R5
+    from . import c07 as _c07
+    from .. import report as _report
+    _c07.run(F, _report.SubsetAlias(R, {"C07-R5": "C08-R4"}, prefix="poll-interval:"))
     # ---------------------------------------------------------------- R5 commit grouping
     R.rule("C08-R5", "every storage write is followed by a commit before the next request, reboot or policy decision (paths through a failed storage operation are C14's business)")
     sets = [n.idx for n in Sr.nodes if n.idx in Sr.live and Sr.ev[n.idx] and Sr.ev[n.idx][0] == "env" and Sr.ev[n.idx][1] == "Storage" and Sr.ev[n.idx][2] in ("set_int", "set_string", "set_bool", "remove")]
